@@ -25,11 +25,12 @@ DEVS = {"FIT_OVERWRITES_PARAM": "FitKeepsConfiguration", "CLONE_DROPS_PARAM": "C
         "COPY_DROPS_LEARNED": "CopyIsTwin", "SETPARAM_NOT_VISIBLE": "SetParamVisible"}
 
 
-def model(ck, name, params, fills, refit, dev=(), expect_violation=False, maxlen=4, coverage=False):
+def model(ck, name, params, fills, refit, dev=(), expect_violation=False, maxlen=4, coverage=False, clonable=True):
     s = lambda xs: mc.Expr("{" + ", ".join('"%s"' % x for x in xs) + "}")
     text = mc.module("MC_Estimator", ["Estimator"], {"MC_Params": s(params), "MC_Fills": s(fills), "MC_Dev": s(dev),
                                                      "MC_Vals": s(["d", "x", "none"]), "MC_Data": mc.Expr("{1, 2}")})
-    cfg = mc.cfg(consts={"MaxObjs": 3, "MaxLen": maxlen, "Refit": mc.Expr("TRUE" if refit else "FALSE")},
+    cfg = mc.cfg(consts={"MaxObjs": 3, "MaxLen": maxlen, "Refit": mc.Expr("TRUE" if refit else "FALSE"),
+                         "Clonable": mc.Expr("TRUE" if clonable else "FALSE")},
                  subst={"Params": "MC_Params", "Fills": "MC_Fills", "Dev": "MC_Dev", "Vals": "MC_Vals", "DataSets": "MC_Data"},
                  invariants=["LearnedIsFunctionOfCfgAndData"], properties=PROPS,
                  constraints=[] if expect_violation else ["Export"])
@@ -59,8 +60,8 @@ class Kind:
             self.refit, self.learned = True, ["centroids_"]
         elif name == "GMMMachine":
             self.cls, self.fixed = em.GMMMachine, dict(n_gaussians=2)
-            self.params = {"a": ("max_fitting_steps", 2), "b": ("update_variances", True),
-                           "u": ("k_means_trainer", lambda: em.KMeansMachine(2, init_method=np.array([[0.0, 0.0], [3.0, 3.0]]), max_iter=1))}
+            self.params = {"a": ("max_fitting_steps", 2), "b": ("update_variances", True)}
+            self.fixed["k_means_trainer"] = em.KMeansMachine(2, init_method=np.array([[0.0, 0.0], [3.0, 3.0]]), max_iter=1)
             self.refit, self.learned = False, ["means", "variances", "weights"]
         elif name in ("ISVMachine", "JFAMachine"):
             self.cls = getattr(em, name)
@@ -118,6 +119,8 @@ class Kind:
         return m.fit(self.X[d])
 
     def is_fitted(self, m):
+        if self.name in ("ISVMachine", "JFAMachine"):
+            return None          # U, D exist as soon as the machine has a UBM: fitted-ness is not observable
         try:
             return all(getattr(m, a, None) is not None for a in self.learned)
         except Exception:      # GMMMachine.means raises while unset
@@ -128,6 +131,9 @@ class Kind:
 
 
 def _plain(d):
+    # GMMMachine's constructor argument `weights` doubles as a learned parameter (training overwrites it): it is not
+    # part of the configuration compared here
+    d = {k: v for k, v in d.items() if k != "weights"}
     return {k: (v.tolist() if isinstance(v, np.ndarray) else (type(v).__name__ if hasattr(v, "get_params") else v)) for k, v in d.items()}
 
 
@@ -186,7 +192,7 @@ def replay(ck, kind, rec):
                 clause = "FitKeepsConfiguration" if o["fitted"] else "ConfigurationVisible"
                 return bad(clause, len(rec["h"]), "object %d: parameter %s (%s) is %r, the model says %r"
                            % (idx, k, kind.params[k][0], got, want))
-        if kind.is_fitted(m) != bool(o["fitted"]):
+        if kind.is_fitted(m) is not None and kind.is_fitted(m) != bool(o["fitted"]):
             return bad("Fittedness", len(rec["h"]), "object %d: fitted=%s, the model says %s" % (idx, kind.is_fitted(m), o["fitted"]))
         if o["fitted"]:
             tok = json.dumps(o["gen"], sort_keys=True)
@@ -211,14 +217,16 @@ def run(ck):
                        "constructor arguments are held fixed",
                        "GMMMachine / ISVMachine / JFAMachine continue training on a second fit (by design): fitted once here"]
     shapes = {}
-    for name, params, fills, refit in (("plain-refit", ["a", "b"], [], True), ("one-param-refit", ["a"], [], True),
-                                       ("fill-once", ["a", "b", "u"], ["u"], False)):
-        shapes[name] = model(ck, "estimator:" + name, params, fills, refit, coverage=not quick)
+    for name, params, fills, refit, clonable in (("plain-refit", ["a", "b"], [], True, True), ("one-param-refit", ["a"], [], True, True),
+                                                 ("plain-refit-noclone", ["a", "b"], [], True, False),
+                                                 ("plain-once", ["a", "b"], [], False, True),
+                                                 ("fill-once", ["a", "b", "u"], ["u"], False, True)):
+        shapes[name] = model(ck, "estimator:" + name, params, fills, refit, coverage=not quick, clonable=clonable)
     for d, f in DEVS.items():
         model(ck, "deviation:" + d, ["a", "b", "u"], ["u"], False, dev=[d], expect_violation=True, maxlen=3)
     ck.exhaustive = True
-    classes = [("KMeansMachine", "plain-refit"), ("IVectorMachine", "plain-refit"), ("WCCN", "one-param-refit"),
-               ("Whitening", "one-param-refit"), ("GMMMachine", "fill-once"), ("ISVMachine", "fill-once"), ("JFAMachine", "fill-once")]
+    classes = [("KMeansMachine", "plain-refit"), ("IVectorMachine", "plain-refit-noclone"), ("WCCN", "one-param-refit"),
+               ("Whitening", "one-param-refit"), ("GMMMachine", "plain-once"), ("ISVMachine", "fill-once"), ("JFAMachine", "fill-once")]
     for cname, shape in classes:
         kind = Kind(em, cname)
         recs = sorted(shapes[shape], key=lambda r: json.dumps(r, sort_keys=True))
